@@ -22,6 +22,7 @@ EXPLANATION = (
     "distinct (I5); R06.5 a dataset node is removed from the combined graph only when nothing at all is attached to it (degree 0), so no "
     "column is left without its owner (= R03.3); R06.6 result accessors are pure (= R11.3: a memo ignoring the flags returns paths ending at "
     "sub-query columns). R06.7 the table-level role predicates the paths are compared with partition the tables as C03 requires (= R03.1). Does not decide: that the table graph connects the owners of the first and last column of each path (needs values)."
+    ' R06.9 (= R14.2) no table is built with a schema name fixed in the code; R06.10 (= R01.5) every place a sub-query can stand is walked at table level.'
 )
 RULE_TEXT = "one obligation per owner store x insertion pair, per result insertion, per model class, per removal site"
 
